@@ -1,5 +1,6 @@
 """C15 - no eviction livelock in a closed system."""
 import st_cluster
+import st_reclaimrules
 
 LEVEL = "model_checking"
 PREFIXES = ["C15_"]
@@ -13,5 +14,9 @@ def run(ctx):
     ctx.cov["rule"] = ("closed clusters (fixed nodes/queues/jobs; binds complete, evicted pods recreated pending) run for 8 cycles on the real "
                        "scheduler with consolidation / consolidating-reclaim / saturation multiplier varied; lasso detection on the canonical "
                        "cluster state by TLC; non-trivial = at least one eviction happened")
+    ctx.assumptions += ["rule level: ReclaimRules.tla is model-checked for 2 departments x 2 leaf queues, 3 GPUs, <= 2 jobs per leaf, "
+                        "every fair-share vector the C09 contract allows (liveness on the complete state graph); its full initial "
+                        "clusters are the systematic scenario source for the real scheduler"]
+    st_reclaimrules.run_stage(ctx, PREFIXES, thorough=not ctx.quick)
     n = 160 if ctx.quick else 4000
     st_cluster.run_stage(ctx, PREFIXES, [("closed", n)], nontrivial_fn=nontrivial)
